@@ -1,5 +1,6 @@
 import BytesVerif.Judge.C14
 import BytesVerif.Judge.C15
+import BytesVerif.Judge.Buf
 
 def main (args : List String) : IO UInt32 := do
   match args with
@@ -7,6 +8,10 @@ def main (args : List String) : IO UInt32 := do
   | ["cmp"] => BytesVerif.Judge.C14.run
   | ["cert-c15"] => BytesVerif.Judge.C15.certSearch
   | ["fmt"] => BytesVerif.Judge.C15.run
+  | ["buf"] => BytesVerif.Judge.BufJ.run false
+  | ["buf", "debug"] => BytesVerif.Judge.BufJ.run false
+  | ["buf", "release"] => BytesVerif.Judge.BufJ.run true
+  | ["cert-c10"] => BytesVerif.Judge.BufJ.certSearch
   | _ => do
     IO.eprintln s!"judge: unknown mode {args}"
     return 2
